@@ -171,6 +171,7 @@ func checkC07(p *Prog, r *Report) {
 	// the tool does not model must not be attached to the previous modelled one (R-S, with the
 	// conditions under which each piece of state is replaced)
 	ruleStickyState(p, r, "C07", map[string]bool{"cisco": true}, 5)
+	ruleMustCalls(p, r, "R-PH", "C07")
 	r.Trusted = []string{"go/ssa, call graph", "the audited guard sets in tables/guards.tsv are the intended ones (each row carries its reason)"}
 	r.NotDec = "whole-device frame condition for arbitrary unmanaged content; value-dependent marking (which objects an unknown interface reaches); lines the parser does not model"
 }
